@@ -487,8 +487,10 @@ PROPS = {
   # Props.C19 imports the per-module genesis models and proofs added for the export/import half:
   # Model/{Lockup,Incentives,Twap,Superfluid,CLPool}Genesis, Proofs/{LockupGenesisSim,LockupGenesisOps,LockupGenesis,
   # IncentivesGenesisWF,IncentivesGenesis,IncentivesGenesisRun,TwapGenesis,SuperfluidGenesis,SuperfluidGenesisAccs,CLPoolGenesis}
-  "modules": ["OsmoVerif.Props.C19"],
-  "min_theorems": 60,
+  # Props.C19{TokenFactory,PoolManager,Gamm,MintEpochs,CL}: Model/{TokenFactory,PoolManager,Gamm,CLFull}Genesis and
+  # Proofs/{TokenFactoryGenesis,PoolManagerGenesis,GammGenesis,DetEpochsReach,AccumGenesisReach,CLFullGenesis*}
+  "modules": ["OsmoVerif.Props.C19", "OsmoVerif.Props.C19TokenFactory", "OsmoVerif.Props.C19PoolManager", "OsmoVerif.Props.C19Gamm", "OsmoVerif.Props.C19MintEpochs", "OsmoVerif.Props.C19CL"],
+  "min_theorems": 132,
   "fingerprints": [],
   "engines": [{"name": "det", "kind": "app", "n": {"quick": 200, "thorough": 1600}, "shards": {"quick": 4, "thorough": 16}},
               # the module engines of C06/C09/C10/C11/C07 run the op `exportimport` (REAL ExportGenesis -> module store wiped -> REAL
@@ -518,7 +520,14 @@ PROPS = {
                   "gauges + forget the finished ones, exactly; the imported chain follows the exporter through every later history except top-ups of gauges finished "
                   "at export time), x/twap (identity, or a PANIC when Validate rejects a record the chain itself wrote: witness), x/superfluid (identity), one "
                   "concentrated pool (identity). New reachable-state invariants proved for this: incentives RefsWF + coverage, superfluid unique intermediary "
-                  "accounts, CL positions id-sorted.",
+                  "accounts, CL positions id-sorted. "
+                  "x/tokenfactory (import = same authority metadata for every denom incl. renounced / foreign admins, possibly other record order, NO before-send "
+                  "hooks; bisimulation over all 27 messages of the auth model), x/poolmanager (store restored by lookup except overrides equal to the default taker "
+                  "fee, share agreements / alloyed pools / skim accumulators; FeeEq makes every router function equal; bisimulation except across a change of the "
+                  "default taker fee), x/gamm (only the total-liquidity store changes: it becomes the sum over the pool records, which it already is on every clean "
+                  "reachable state; constant-offset bisimulation), x/epochs and accumulator store on reachable states, x/mint reduction schedule, "
+                  "x/concentrated-liquidity layered state (pool + spread-reward + uptime accumulators + incentive records + full-range record): on every reachable "
+                  "state import = export minus the uptime records of dead positions, which no message or query can observe; full-range record recomputed (F41).",
                   "NOT proved, OBSERVED by engine det on the sampled histories only: independence of Go map iteration seeds, goroutine schedules, GC and wall clock "
                   "(two executions in one process + one in another OS process), and export/import of the whole app.",
                   "Tied by T1: every range over a map in app/, x/, osmoutils/, ante/, wasmbinding/ (non-test) is enumerated from the current source; a range whose body is not "
